@@ -316,6 +316,13 @@ class Ctx:
         if deadline is not None and self.now < deadline and not self.heap:
             pass
 
+    def run_for(self, ns):
+        """Let virtual time pass for `ns`, running everything that is due."""
+        deadline = self.now + ns
+        self.wait_until(lambda: False, deadline, "run_for")
+        if self.now < deadline:
+            self.now = deadline
+
     def _pending_nonperiodic(self):
         return bool(self.heap)
 
